@@ -52,7 +52,7 @@ Record mesh_ok (o : opts) (dim topo : Z) (m : meshfile) (es : list (prop * ptype
   mo_ftopo : topo_req topo 3 4 (m_faces m);
   mo_ctopo : topo_req topo 4 6 (m_cells m);
   mo_fadd : add_accepts (fun hs _ => mesh_add_face o (m_edges m) hs) (m_faces m);
-  mo_cadd : add_accepts (fun hs _ => mesh_add_cell o (m_faces m) hs) (m_cells m);
+  mo_cadd : add_accepts (fun hs _ => mesh_add_cell o (m_edges m) (m_faces m) hs) (m_cells m);
   mo_props : map fst es = m_props m;
   mo_entries : Forall (prop_entry_ok m) es;
   mo_keys : keys_fresh [] es;
